@@ -762,6 +762,27 @@ def _filter(repo, col, R="R-C11-filter"):
         col.check(ok, R, fi, f"{name}: rows of the view's own table whose <scope>_<key>_index is selected",
                   f"self.{tbl}.index[self.{tbl}[self._scope + '_<key>_index'].isin(idx)]",
                   f"{name} selects {detail}", node=call)
+        # ... by MEMBERSHIP, on every path: an index list is a set of numbers in any order, possibly with repetitions and gaps; a path that
+        # replaces the membership test by a comparison with some of its entries (`col >= idx[0]`) selects everything in between
+        if ix is not None:
+            def alts_(t_):
+                if t_.op in ("phi", "ifexp"):
+                    out_ = []
+                    for a_ in (t_.args if t_.op == "phi" else t_.args[1:]):
+                        out_ += alts_(a_)
+                    return out_
+                return [t_]
+            for m_ in alts_(ix.args[1]):
+                has_isin = T.find(m_, lambda x: x.op == "mcall" and x.name in ("isin", "in1d")) is not None
+                rng = T.find(m_, lambda x: x.op == "cmp" and x.name in ("<", "<=", ">", ">=") and
+                             any(T.find(a_, lambda y: y.op == "param" and y.name == fi.params[2]) is not None for a_ in x.args)) if len(fi.params) > 2 else None
+                if has_isin and rng is None:
+                    continue
+                col.add(R, fi, f"{name}: rows are selected by membership of their index in the given list, on every path",
+                        "VIOLATED" if rng is not None else "UNDECIDED",
+                        (f"on one path the rows are selected with `{rng.short(70)}`: a comparison with single entries of the index list selects every row "
+                         f"in between (`branch([0, 3, 2])` would select branches 0..2, `branch([1, 1, 3])` 1..3); the list is a set of indices, in any "
+                         f"order, with repetitions and gaps") if rng is not None else f"row mask {m_.short(90)}", node=m_.node or call)
         # "all" is expanded with the values of the SAME column the membership test reads (so it selects every row in view, in any scope)
         if inds is not None and ix is not None and isin is not None and colname is not None:
             arg = next((a_ for a_ in isin.args[1:] if a_.op != "free"), None)
@@ -1392,6 +1413,23 @@ def select_expansion(repo, col, R):
         ctor = ctor or (T.find(t_, lambda x: x.op == "call" and x.name == "View" and len(x.args) == 3) if t_ is not None else None)
     if ctor is None:
         raise AnalysisError("Module.select no longer builds View(self, nodes, edges)")
+    for which, arg in (("nodes", ctor.args[1]), ("edges", ctor.args[2])):
+        # an index that is not given stays not given: View() filters the edges of a node selection (both ends in view) only when it gets
+        # no edge index of its own, and the other way round
+        pn = which
+        tests = [x for x in arg.walk() if x.op == "ifexp" and x.args[0].op == "cmp" and x.args[0].name in ("is", "is not", "==", "!=") and
+                 any(a_.op == "param" and a_.name == pn for a_ in x.args[0].args) and any(a_.op == "const" and a_.name is None for a_ in x.args[0].args)]
+        seen_ = set()
+        for x in tests:
+            if x.key() in seen_:
+                continue
+            seen_.add(x.key())
+            when_none = x.args[1] if x.args[0].name in ("is", "==") else x.args[2]
+            okn = when_none.op == "const" and when_none.name is None
+            col.check(okn, R, fi, f"select: {which} that are not given stay not given (None)", "None",
+                      f"without `{which}=` the selection continues with `{when_none.short(50)}`: the new view then gets an explicit {which[:-1]} index and "
+                      f"View() no longer derives it from the other one (`select(nodes=...)`, groups and channel-name views keep every synapse of the "
+                      f"parent, also those that leave the selection)", node=x.node or fi.node)
     for which, arg, inview in (("nodes", ctor.args[1], "_nodes_in_view"), ("edges", ctor.args[2], "_edges_in_view")):
         subs = [x for x in arg.walk() if x.op == "ifexp" and any(b.op == "attr" and b.name == inview and _is_self(b.args[0]) for b in x.args[1:])]
         if not subs:
